@@ -284,7 +284,13 @@ class PLTopBlock(PLBlock):
 
     def to_string(self) -> str:
         body = super().to_string()
-        return f'DO LANGUAGE plpgsql $__$\n{body}\n$__$;'
+        # The body carries quoted literals (enum labels, annotation values,
+        # ...): pick a tag that does not occur in it.
+        tag, n = '$__$', 0
+        while tag in body + tag[:-1]:
+            n += 1
+            tag = f'$__{n}$'
+        return f'DO LANGUAGE plpgsql {tag}\n{body}\n{tag};'
 
     def get_top_block(self) -> PLTopBlock:
         return self
